@@ -17,28 +17,35 @@ def run(ctx):
     texts = g.json_lines("GEN")
     if len(texts) < 100:
         raise vlib.Inconclusive("generator produced %d texts" % len(texts))
-    evs, _, _ = run_harness(ctx, "ansi", "TestVerifLayout", {
-        "texts": texts, "widths": [1, 2, 3] if q else [1, 2, 3, 4], "heights": [1, 2],
-        "random": 150 if q else 1500, "maxlen": 120 if q else 400})
-    bad, r = vlib.judge(ctx, "T_Layout", "T_Layout.cfg", evs)
-    res.traces = len(evs)
-    for e in evs:
-        res.case([e["fn"], e["w"], e["h"], e["first"], [(c["k"], c["c"], c["s"]) for c in e["in"]]])
+    samples_from = []
+    chunks = [texts[i:i + 800] for i in range(0, len(texts), 800)]
+    nrandom = 150 if q else 1500
+    for k, part in enumerate(chunks):
+        evs, _, _ = run_harness(ctx, "ansi", "TestVerifLayout", {
+            "texts": part, "widths": [1, 2, 3] if q else [1, 2, 3, 4], "heights": [1, 2],
+            "random": nrandom if k == 0 else 0, "maxlen": 120 if q else 400}, name="layout-%d" % k)
+        bad, r = vlib.judge(ctx, "T_Layout", "T_Layout.cfg", evs, name="T_Layout-%d" % k)
+        res.traces += len(evs)
+        for e in evs:
+            res.case([e["fn"], e["w"], e["h"], e["first"], [(c["k"], c["c"], c["s"]) for c in e["in"]]])
+        if k == 0:
+            samples_from = evs[:1] + evs[len(evs) // 2:len(evs) // 2 + 1] + evs[-1:]
+        for b in bad:
+            e = evs[b["line"] - 1]
+            sig = {"monitor": "T_Layout", "fn": e["fn"], "panic": e["panic"]}
+            replay = {"fn": e["fn"], "w": e["w"], "h": e["h"], "first": e["first"],
+                      "in": "".join("".join("\x1b[%sm" % s for s in c["s"]) + c["c"] + ("\x1b[0m" if c["r"] else "") for c in e["in"]),
+                      "out_cells": e["out"], "panic": e["panic"]}
+            path = vlib.save_replay(ctx.pid, "c%d-l%d" % (k, b["line"]), replay)
+            res.violations.append((sig, path, "%s(w=%s,h=%s) on %r violates its requirement" % (e["fn"], e["w"], e["h"], replay["in"][:60])))
+        del evs
     res.rule = ("a case is one call of a real layout helper (Wrap, DumbWrap, Pad, Indent, Snip, SetLength, Apply) "
                 "with input/output lexed into cells and judged by T_Layout against Layout.tla's requirement; "
                 "distinct = distinct (function, parameters, input cells)")
-    for e in evs[:1] + evs[len(evs) // 2:len(evs) // 2 + 1] + evs[-1:]:
+    for e in samples_from:
         res.sample({"fn": e["fn"], "w": e["w"], "h": e["h"], "in": "".join(c["c"] for c in e["in"])[:80],
                     "out": "".join(c["c"] for c in e["out"])[:80]})
     res.extra["texts_enumerated_by_tlc"] = len(texts)
     res.assumptions = ["whitespace = unicode.IsSpace as classified by the harness lexer", "width >= 1, height >= 1",
                        "Snip is given input whose lines fit the width (its callers wrap first)"]
-    for b in bad:
-        e = evs[b["line"] - 1]
-        sig = {"monitor": "T_Layout", "fn": e["fn"], "panic": e["panic"]}
-        replay = {"fn": e["fn"], "w": e["w"], "h": e["h"], "first": e["first"],
-                  "in": "".join("".join("\x1b[%sm" % s for s in c["s"]) + c["c"] + ("\x1b[0m" if c["r"] else "") for c in e["in"]),
-                  "out_cells": e["out"], "panic": e["panic"]}
-        path = vlib.save_replay(ctx.pid, "l%d" % b["line"], replay)
-        res.violations.append((sig, path, "%s(w=%s,h=%s) on %r violates its requirement" % (e["fn"], e["w"], e["h"], replay["in"][:60])))
     return res
